@@ -44,7 +44,9 @@ GRAMMAR
     (branches may come in any order / number; `suffix == "lit"` and tuple/list/set literals accepted)
 
 ONLY PATTERN-CHECKED (glue): the import lines, `with open(..) as fp`, yaml.load(fp, Loader=yaml.FullLoader) /
-json.load(fp) read as "the parsed tree" (parsers are oracles of C16), cij.data.get_data_fname =
+json.load(fp) - inline after the lazy import, or through a module-level helper whose whole body is that import and
+`return yaml.load(<param>, Loader=yaml.FullLoader)` / `return json.load(<param>)` - read as "the parsed tree" (parsers
+are oracles of C16), cij.data.get_data_fname =
 pkg_resources.resource_filename(__name__, fname), `from .validate import validate_config`.
 """
 import ast
@@ -290,11 +292,41 @@ class Update:
              % src_of(s)[:80].split("\n")[0])
 
 
+def loader_kind(mod, e, fp="fp"):
+    """the expression `e` loads the open file `fp` with a parser: -> 'yaml-inline' | 'json-inline' | 'yaml-helper' |
+    'json-helper' | None.  A helper is a module-level, undecorated function bound once whose whole body is the lazy import
+    followed by `return yaml.load(<its parameter>, Loader=yaml.FullLoader)` / `return json.load(<its parameter>)`:
+    calling it is the inline form with the helper inlined."""
+    s = src_of(e)
+    if s == YAML_LOAD.replace("(fp,", "(%s," % fp):
+        return "yaml-inline"
+    if s == JSON_LOAD.replace("(fp)", "(%s)" % fp):
+        return "json-inline"
+    if isinstance(e, ast.Call) and isinstance(e.func, ast.Name) and [src_of(a) for a in e.args] == [fp] and not e.keywords:
+        try:
+            h = module_function(mod, FILE, e.func.id)
+        except TranslateError:
+            return None
+        if len(h.args.args) != 1:
+            return None
+        arg_names(h, FILE, [h.args.args[0].arg])
+        par = h.args.args[0].arg
+        body = [src_of(x) for x in body_no_doc(h)]
+        if par in ("yaml", "json"):
+            return None
+        if body == ["import yaml", "return yaml.load(%s, Loader=yaml.FullLoader)" % par]:
+            return "yaml-helper"
+        if body == ["import json", "return json.load(%s)" % par]:
+            return "json-helper"
+    return None
+
+
+
 # ---------------------------------------------------------------------------------------------------
 # apply_default_config
 # ---------------------------------------------------------------------------------------------------
 
-def translate_apply(fn, update_name, data_init_src):
+def translate_apply(fn, update_name, data_init_src, mod):
     arg_names(fn, FILE, [a.arg for a in fn.args.args])
     if len(fn.args.args) != 1:
         bail(fn, "apply_default_config does not take exactly one parameter")
@@ -303,8 +335,9 @@ def translate_apply(fn, update_name, data_init_src):
     b = body_no_doc(fn)
     imports = [s for s in b if isinstance(s, (ast.Import, ast.ImportFrom))]
     rest = [s for s in b if s not in imports]
-    if sorted(src_of(s) for s in imports) != ["import cij.data", "import yaml"]:
-        bail(imports[0] if imports else fn, "imports of apply_default_config are not `import yaml` + `import cij.data`")
+    imps = sorted(src_of(s) for s in imports)
+    if imps not in (["import cij.data", "import yaml"], ["import cij.data"]):
+        bail(imports[0] if imports else fn, "imports of apply_default_config are not `import cij.data` (+ `import yaml`)")
     if len(rest) != 2 or not isinstance(rest[0], ast.With) or not isinstance(rest[1], ast.Return):
         bail(rest[0] if rest else fn, "apply_default_config body is not `with open(...) as fp: NAME = yaml.load(...)` / `return ...`")
     w, ret = rest
@@ -317,13 +350,15 @@ def translate_apply(fn, update_name, data_init_src):
     if not ok:
         bail(w, "`%s` (expected `with open(cij.data.get_data_fname(\"<file>\")) as fp:`)" % src_of(w).split("\n")[0][:100])
     fname = inner.args[0].value
+    kind = loader_kind(mod, w.body[0].value) if (len(w.body) == 1 and isinstance(w.body[0], ast.Assign)) else None
     if len(w.body) != 1 or not (isinstance(w.body[0], ast.Assign) and len(w.body[0].targets) == 1
-                                and isinstance(w.body[0].targets[0], ast.Name) and src_of(w.body[0].value) == YAML_LOAD):
-        bail(w.body[0], "`%s` (expected `NAME = %s`)" % (src_of(w.body[0])[:80], YAML_LOAD))
+                                and isinstance(w.body[0].targets[0], ast.Name)) \
+            or not ((kind == "yaml-inline" and "import yaml" in imps) or (kind == "yaml-helper" and "import yaml" not in imps)):
+        bail(w.body[0], "`%s` (expected `NAME = %s` after `import yaml`, or `NAME = <yaml helper>(fp)`)" % (src_of(w.body[0])[:80], YAML_LOAD))
     loaded = w.body[0].targets[0].id
     if loaded == par or loaded in ("fp", "yaml", "cij", update_name):
         bail(w.body[0], "the loaded defaults are bound to `%s`" % loaded)
-    for nm in (par, loaded, "fp", "yaml", "cij"):
+    for nm in (par, loaded, "fp", "cij") + (("yaml",) if "import yaml" in imps else ()):
         if len(bindings_of(fn, nm)) != 1:
             bail(fn, "name `%s` is bound more than once in apply_default_config" % nm)
     c = ret.value
@@ -387,9 +422,12 @@ def translate_read(fn, mod):
         if lits is None:
             bail(t, "condition `%s` (accepted: `suffix in {\"lit\", ...}` / `suffix == \"lit\"`)" % src_of(t)[:80])
         body = [src_of(s) for s in cur.body]
-        if body == ["import yaml", "config = " + YAML_LOAD]:
+        last = cur.body[-1] if cur.body else None
+        kind = loader_kind(mod, last.value) if (isinstance(last, ast.Assign) and len(last.targets) == 1
+                                                and src_of(last.targets[0]) == "config") else None
+        if (kind == "yaml-inline" and body[:-1] == ["import yaml"]) or (kind == "yaml-helper" and len(body) == 1):
             branches.append((lits, "PYaml"))
-        elif body == ["import json", "config = " + JSON_LOAD]:
+        elif (kind == "json-inline" and body[:-1] == ["import json"]) or (kind == "json-helper" and len(body) == 1):
             branches.append((lits, "PJson"))
         else:
             bail(cur.body[0], "branch `%s` (accepted: `import yaml; config = %s` or `import json; config = %s`)"
@@ -445,7 +483,7 @@ def translate(source, data_init_src):
     try:
         if fn_u is None:
             raise TranslateError(FILE, None, "update_config is not translatable, so apply_default_config has no target")
-        res.apply = translate_apply(module_function(mod, FILE, "apply_default_config"), fn_u.name, data_init_src)
+        res.apply = translate_apply(module_function(mod, FILE, "apply_default_config"), fn_u.name, data_init_src, mod)
     except TranslateError as e:
         res.errors["apply"] = e
     try:
